@@ -20,6 +20,11 @@ def gen(rnd, zone, tier):
     base = D.datetime.fromtimestamp(rnd.choice(tr) if tr else rnd.randrange(1_600_000_000, 1_900_000_000), tz).date() - D.timedelta(days=3)
     sets = list(range(128)) if tier == "thorough" else sorted(set([0, 1, 64, 65, 127, 2, 3, 96] + [rnd.randrange(128) for _ in range(40)]))
     starts = [0, 1, 30, 13 * 60, 23 * 60 + 59, rnd.randrange(1440)] if tier == "thorough" else [0, 13 * 60, 23 * 60 + 59, rnd.randrange(1440)]
+    if tr:      # start times inside the hour the zone skips or repeats on its transition days
+        for t in tr[:1] + tr[-2:]:
+            for dt_ in (D.datetime.fromtimestamp(t - 1, tz), D.datetime.fromtimestamp(t, tz)):
+                for k in (-90, -30, 0, 30): starts.append((dt_.hour * 60 + dt_.minute + k) % 1440)
+        starts = sorted(set(starts))[:14 if tier == "quick" else 40]
     for dayk in range(7):
         day = base + D.timedelta(days=dayk)
         for s in starts:
@@ -37,6 +42,10 @@ def gen_reuse(rnd, cases, n):
     for _ in range(n):
         a = rnd.choice(cases); b = dict(rnd.choice(cases))
         b["days"] = a["days"]; b["first_now"] = a["now"]; b["first_start"] = a["start"]; out.append(b)
+    for _ in range(n // 2):        # the same question with the same arguments, asked again one or several weeks later at another time of day
+        a = rnd.choice(cases); b = dict(a)
+        b["first_now"] = a["now"]; b["first_start"] = a["start"]
+        b["now"] = a["now"] + 7 * 86400 * rnd.choice([1, 1, 2, 5]) + rnd.choice([-1, 1]) * rnd.randrange(0, 43200); out.append(b)
     return out
 
 
